@@ -14,8 +14,17 @@ Import ListNotations.
 Local Open Scope N_scope.
 
 (* ---- 1. no panic, no hang ------------------------------------------------------------------------ *)
-(* Servers in every mode (the mode, the certificates, ClientAuth, suites, tickets, NextProtos are fields of cfg):
-   for every delivered sequence of any length the outcome is neither Panic nor Hang. *)
+(* SCOPE OF "Panic".  These two theorems are about the panic sites THE MODEL HAS: the state machines can reach Panic only
+   through (a) prfForVersion / masterFromPreMasterSecret for a version without a PRF (the nil-PRF crash repaired in
+   32acbb1 sat here), (b) the key-agreement step of the client (rsaKeyAgreement's type assertion, repaired in 4334fea: an
+   error now) and (c) whatever an outcome-valued sub-function returns.  The index / slice panics of the parsers are
+   covered separately, on byte strings, by the totality theorems of sections 4, 4b and 4d.  Every other panic class of the
+   Go code - nil dereferences and type assertions in parts the models abstract (x509 parsing and Verify, sm2 decryption
+   and ASN.1, the record layer after ChangeCipherSpec, Config callbacks), slice arithmetic in marshal() - is NOT a panic
+   site of the model: for those the evidence is the S / H / R / PM / PW / PE runs of this check under recover() (no PANIC
+   observation in ~100 000 quick / ~430 000 thorough cases), not these theorems.
+   Servers in every mode (the mode, the certificates, ClientAuth, suites, tickets, NextProtos are fields of cfg):
+   for every delivered sequence of any length the outcome of the model is neither Panic nor Hang. *)
 Theorem C15_server_no_panic_no_hang : forall cfg ins,
   server_run cfg ins <> RPanic /\ server_run cfg ins <> RHang.
 Proof. intros cfg ins. apply server_run_safe. left. reflexivity. Qed.
@@ -38,7 +47,10 @@ Definition C15_rsa_kx_script : list input :=
 Example C15_rsa_kx_non_rsa_cert_is_an_error : client_run C15_rsa_kx_config C15_rsa_kx_script = RError.
 Proof. vm_compute. reflexivity. Qed.
 
-(* End of stream is an error: once the peer's stream has ended no endpoint keeps waiting. *)
+(* End of stream: once the peer's stream has ended no endpoint keeps waiting (these two say "not Waiting": the run is
+   decided - Error, or a Complete / Error reached BEFORE the end of stream; no Panic / Hang by section 1); the exact
+   statement follows: what was decided before the stream ended stays, and an endpoint that is still reading when the
+   stream ends gets an ERROR - in particular end of stream before completion is an error, never completion. *)
 Theorem C15_client_eof_is_error : forall cfg ins, In IEOF ins ->
   match client_run cfg ins with RWaiting _ => False | _ => True end.
 Proof. intros cfg ins. apply run_eof_error. apply client_step_eof. Qed.
@@ -49,6 +61,15 @@ Theorem C15_server_eof_is_error : forall cfg ins, In IEOF ins ->
 Proof. intros cfg ins. apply run_eof_error. apply server_step_eof. Qed.
 Print Assumptions C15_server_eof_is_error.
 
+Theorem C15_eof_before_completion_is_error : forall ccfg scfg pre post,
+  client_run ccfg (pre ++ IEOF :: post) = match client_run ccfg pre with RWaiting _ => RError | r => r end /\
+  server_run scfg (pre ++ IEOF :: post) = match server_run scfg pre with RWaiting _ => RError | r => r end.
+Proof.
+  intros. split; [apply (run_eof_exact (client_step ccfg) (client_step_eof ccfg))
+                 |apply (run_eof_exact (server_step scfg) (server_step_eof scfg))].
+Qed.
+Print Assumptions C15_eof_before_completion_is_error.
+
 (* ---- 2. completion only on an honest flight --------------------------------------------------------- *)
 (* [strip] removes the warning alerts (readRecord drops up to five consecutive ones); what remains of a sequence
    that completes starts with exactly one honest flight:
@@ -57,7 +78,14 @@ Print Assumptions C15_server_eof_is_error.
      and certificate 1, [CertificateRequest], ServerHelloDone, [NewSessionTicket iff announced], ChangeCipherSpec,
      Finished = PRF(master, "server finished", Hash(transcript of this session));
    GMSSL client, resumption: ServerHello echoing the session id of a cached session, [NewSessionTicket],
-     ChangeCipherSpec, Finished keyed with the cached master secret. *)
+     ChangeCipherSpec, Finished keyed with the cached master secret.
+   OBSERVATION (ECDHE-SM2 suites 0xe011 / 0xe051, offered by the default configuration): the honest flight of the model -
+   as the code, gm_key_agreement.go ecdheKeyAgreementGM.generateClientKeyExchange - goes on only for a ServerKeyExchange that
+   names curve 29: the SM2 point check fails for every other curve id, and the X25519 branch uses a public value that is
+   never set, so the pre-master secret is a public constant.  Only a holder of the server's SIGNING key can choose that
+   parameter block (the ServerKeyExchange signature covers it together with this session's randoms), and the gmtls server
+   never does (its ECDHE-SM2 server side returns an error); C08 section 12 states what follows for authentication and
+   secrecy.  Recorded as an observation, not a violation of this property (the handshake errors or completes as specified). *)
 Theorem C15_gm_client_complete_only_on_honest_flight : forall cfg ins st',
   c_gm cfg = true -> client_run cfg ins = RComplete st' ->
   (exists f rest, strip ins = gm_flight_inputs f ++ rest /\ gm_full_flight_ok cfg f st') \/
@@ -565,3 +593,24 @@ Example C15_ecdhe_skx_examples :
   ecdhe_processServerKeyExchange 771 true PK_RSA gen_supportedSignatureAlgorithms (fun _ => true) (ex_skx [4; 1; 0]) = Err 1 /\
   ecdhe_processServerKeyExchange 770 true PK_RSA gen_supportedSignatureAlgorithms (fun _ => true) (ex_skx [0; 1; 7]) <> Panic.
 Proof. split; [eexists; vm_compute; repeat split; reflexivity|]. vm_compute. repeat split; try reflexivity; discriminate. Qed.
+
+(* complete runs through client_run / server_run: the inputs each side of the honest pair receives, in order *)
+Definition ex_views (c : cconfig) (s : sconfig) : list input * list input :=
+  let c0 := client_init c in
+  let to_s1 := map to_input (cs_out c0) in
+  let '(s1, _) := feed (server_step s) server_init PRunning to_s1 in
+  let to_c1 := map to_input (ss_out s1) in
+  let '(c1, _) := feed (client_step c) (cs_clear_out c0) PRunning to_c1 in
+  let to_s2 := map to_input (cs_out c1) in
+  let '(s2, _) := feed (server_step s) (ss_clear_out s1) PRunning to_s2 in
+  let to_c2 := map to_input (ss_out s2) in
+  (to_c1 ++ to_c2, to_s1 ++ to_s2).
+Definition is_complete {A} (r : result A) : bool := match r with RComplete _ => true | _ => false end.
+Example C15_runs_end_in_complete :
+  is_complete (client_run ex_client (fst (ex_views ex_client (ex_server GMOnly 4)))) = true /\
+  is_complete (server_run (ex_server GMOnly 4) (snd (ex_views ex_client (ex_server GMOnly 4)))) = true /\
+  is_complete (client_run (ex_tls_client 771) (fst (ex_views (ex_tls_client 771) (ex_server TLSOnly 0)))) = true /\
+  is_complete (server_run (ex_server AutoSwitch 0) (snd (ex_views ex_client (ex_server AutoSwitch 0)))) = true /\
+  (* the same client sequence cut by the end of the stream before the Finished: an error *)
+  client_run ex_client (removelast (fst (ex_views ex_client (ex_server GMOnly 4))) ++ [IEOF]) = RError.
+Proof. vm_compute. repeat split; reflexivity. Qed.
